@@ -72,6 +72,10 @@ CO_Tree::CO_Tree(Iterator i, const dimension_type n) {
   stack[0].second = 3;
   ++stack_first_empty;
 
+  // If the copy of an element throws, the elements built so far and the two
+  // arrays must be released here: the destructor of an object under
+  // construction is not run (compare with copy_data_from()).
+  try {
   while (stack_first_empty != 0) {
 
     // Implement
@@ -115,8 +119,9 @@ CO_Tree::CO_Tree(Iterator i, const dimension_type n) {
     else {
       if (top_n == 1) {
         PPL_ASSERT(root.index() == unused_index);
-        root.index() = i.index();
         new(&(*root)) data_type(*i);
+        // Set the index only if the construction was successful.
+        root.index() = i.index();
         ++i;
         --stack_first_empty;
       }
@@ -132,6 +137,14 @@ CO_Tree::CO_Tree(Iterator i, const dimension_type n) {
         stack_first_empty += 4;
       }
     }
+  }
+  }
+  catch (...) {
+    // Destroys the elements whose index has been set, releases indexes[]
+    // and data[].
+    destroy();
+    init(0);
+    throw;
   }
   size_ = n;
   PPL_ASSERT(OK());
